@@ -364,15 +364,22 @@ def run(ctx):
     tm = table["macros"]
     cur = defaultdict(Counter)
     first = {}
+    # closure ordinals are positional (`{closure#2}`): adding an unrelated closure renumbers them, so sites are keyed by the
+    # enclosing function path with the ordinals erased
+    def nc(fid):
+        return re.sub(r"\{closure#\d+\}", "{closure}", fid)
+    tmn = defaultdict(list)
+    for fid, es in tm.items():
+        tmn[nc(fid)].extend(es)
     for f, m, msg, t in macro_sites:
-        cur[f.id][(m, msg)] += 1
-        first.setdefault((f.id, m, msg), t)
+        cur[nc(f.id)][(m, msg)] += 1
+        first.setdefault((nc(f.id), m, msg), t)
     for fid, cnt in sorted(cur.items()):
         allowed = Counter()
         inv = {}
-        for e in tm.get(fid, []):
+        for e in tmn.get(fid, []):
             allowed[(e["macro"], e["msg"])] += e["count"]
-            inv[(e["macro"], e["msg"])] = e.get("invariant", "")
+            inv[(e["macro"], e["msg"])] = e.get("invariant", "") or inv.get((e["macro"], e["msg"]), "")
         for (m, msg), c in sorted(cnt.items()):
             t = first[(fid, m, msg)]
             key = "%s|%s!|%s" % (fid, m, msg[:60])
